@@ -52,7 +52,7 @@ def stub_text(E, lf, N):
     return '%s\n{\n  __CPROVER_assert(%s == %d, "callee contract requires size == %d");\n%s\n}' % (E.proto(lf), ps, N, N, body)
 
 
-def entry_point_job(check, units, ut, T, f, N, name, kind):
+def entry_point_job(check, units, ut, T, f, N, name, kind, timeout=300):
     """CBMC obligation for one conversion entry point f of unit type ut: every component k of the result equals
     Conv(component k of the input, original_unit, new_unit); in-place forms write only their argument, copying forms
     write nothing.  kind: 'inplace' | 'copy'."""
@@ -105,7 +105,7 @@ def entry_point_job(check, units, ut, T, f, N, name, kind):
         harness = 'void harness(void) { %s %s; }\n' % (' '.join(decl), call)
         txt = E.unit([f], contracts={f.cname: clauses}, extra=spec, bodyless=stubbed) + '\n'.join(stubs) + '\n' + harness
         ob.text = '\n'.join(clauses[:6]) + ('\n...' if len(clauses) > 6 else '')
-        r = cbmc.verify(txt, os.path.join(check.work, 'cbmc'), re.sub(r'\W+', '_', name), enforce=f.cname, backend='sat', timeout=300)
+        r = cbmc.verify(txt, os.path.join(check.work, 'cbmc'), re.sub(r'\W+', '_', name), enforce=f.cname, backend='sat', timeout=timeout)
         ob.seconds, ob.backend = r.seconds, r.backend
         post = [p for p in r.props if '.postcondition' in p[0]]
         if r.status == 'ok':
